@@ -52,6 +52,11 @@ CLAIMED = {
         "Trusted: separator classifier transcribed from docs/DigitSeparators.md and the per-mode examples documented in skip.rs; only ~130 of the 16^3 mode triples are compiled.",
         "bounded-exhaustive enumeration + property-based testing: metamorphic relations and a reference classifier",
     ),
+    "C15": (
+        "Parse side: generated (format, float type, nan/inf/infinity option strings from a fixed pool of 1..50 letter strings incl. None) x inputs derived from a configured string (exact, prefixes, one-byte extensions, case flips, 0x20-neighbours, separator insertion, sign variants) compared with a reference matcher; numeric inputs never yield NaN and keep the sign of zero; the partial parser returns specials only for configured strings. Write side: +-0, +-inf, NaNs with either sign bit and payloads x every compiled writer format x option strings or None: exact bytes, sign rules, panic when disabled, zero parses back with its sign.",
+        "Trusted: reference matcher in harness/vcore/refparse.rs; radices >= 19 (where special strings are partly numeric) are excluded here and covered by the C11 finding. One known finding (separator run before a special string is skipped).",
+        "property-based testing against a reference matcher + round-trip relations",
+    ),
     "C18": (
         "Run-time builder states (rebuild -> build_unchecked / build_strict under catch_unwind) exhaustively over all 2^18 syntax-flag words, all 2^13 separator-flag words x separator set/unset, all 256 values of every punctuation / radix field, all punctuation triples from a 12-byte set, plus generated joint states, against a reference validity predicate written from the documentation; every catalogue entry's compile-time verdict vs the reference vs the run-time builder; every compiled invalid format x inputs (configuration error, never a value or panic); generated invalid decimal point / exponent options on valid formats (InvalidPunctuation from complete and partial float parsers); generated setter sequences on the format builder (documented bit layout, getters, rebuild) and the options builders.",
         "Trusted: reference predicate in harness/vcore/fmodel.rs; when several rules are violated any of their errors is accepted; feature sets default/pow2/radix/format/radix+format.",
